@@ -134,9 +134,11 @@ def handleR (op : String) : Option (R String) :=
       let kind ← nat; let I ← layout3; let M ← mmod
       let (sub, reduced) ← (if kind = 2 then do let s ← nat; let r ← bool; pure (s, r) else pure (0, false))
       let n ← nat
-      let steps ← listOf n (do let K ← nat; let mv ← bool; let pv ← bool; let iv ← bool; pure (CStep.mk K mv pv iv))
+      let follows := (kind = 2 && !reduced) || kind = 1
+      let steps ← listOf n (do let K ← nat; let mv ← bool; let pv ← bool; let iv ← bool; let msz ← nat; pure (CStep.mk K mv pv iv msz follows))
       done
-      if kind = 2 then pure (fmt (decide (sukfSeqValid I M sub reduced steps)) (sukfSeqCase I M sub reduced steps))
+      if kind = 3 then pure (fmt (decide (kfSeqValid I M.O.dim I.dim M.ysize steps)) (kfSeqCase I M.O.dim I.dim M.ysize steps))
+      else if kind = 2 then pure (fmt (decide (sukfSeqValid I M sub reduced steps)) (sukfSeqCase I M sub reduced steps))
       else pure (fmt (decide (ukfSeqValid (kind = 1) I M steps)) (ukfSeqCase (kind = 1) I M steps))
   | "b_wna_seq" => some do
       let d ← dim; let nums ← natList; done
@@ -150,6 +152,23 @@ def handleR (op : String) : Option (R String) :=
   | "b_gmaugalias" => some do
       let K ← nat; let L ← layout3; done
       pure (fmt (decide (1 ≤ K)) (gmaugAliasCase K L))
+  | "b_bootseq" => some do
+      let I ← layout3; let M ← mmod; let n ← nat
+      let steps ← listOf n (do let K ← nat; let mv ← bool; let pv ← bool; let iv ← bool; pure (CStep.mk K mv pv iv 0 false))
+      done
+      pure (fmt (decide (bootValid I M)) (bootSeqCase I M steps))
+  | "b_gpfcseq" => some do
+      let d ← dim; let hm ← nat; let n ← nat
+      let steps ← listOf n (do let K ← nat; let mv ← bool; pure (CStep.mk K mv true true 0 false))
+      done
+      pure (fmt (decide (gpfcSeqValid hm steps)) (gpfcSeqCase d hm steps))
+  | "b_eeseq" => some do
+      let ls ← nat; let cs ← nat; let N ← nat; let n ← nat
+      let raw ← listOf n (do let m ← nat; let f ← bool; pure (m, f))
+      done
+      match raw.mapM (fun (p : Nat × Bool) => (EMethod.ofNat? p.1).map (fun m => (m, p.2))) with
+      | none => failure
+      | some steps => pure (fmt (decide (1 ≤ N)) (eeSeqCase ls cs N steps))
   | "b_linprop" => some do
       let fn ← nat; let sr ← nat; let num ← nat; let pr ← nat; let pc ← nat; let sS ← bool; let hE ← bool; let sE ← bool; done
       if fn = 0 then pure (fmt false (pure none))
